@@ -40,6 +40,8 @@ def classify(d):
         return 'unbounded-frame-loop'
     if code == 78:
         return 'sentinel-datagram-not-handled-after-hostile-sequence'
+    if code == 81:
+        return 'frames-forwarded-that-the-datagram-does-not-contain'
     if code == 80:
         return 'HARNESS'
     return 'exit-%s' % code
